@@ -109,3 +109,16 @@ Proof.
   unfold of_bits64, bits64. rewrite binary_float_of_bits_of_binary_float, B2BSN_BSN2B. apply B2Prim_Prim2B.
 Qed.
 
+
+(* storing at 32 bits is monotone: a larger component is never read back smaller *)
+Theorem f32_monotone x y :
+  BinarySingleNaN.is_finite (Prim2B x) = true -> BinarySingleNaN.is_finite (Prim2B y) = true ->
+  (Rabs (R32 (BinarySingleNaN.B2R (Prim2B x))) < bpow radix2 128)%R ->
+  (Rabs (R32 (BinarySingleNaN.B2R (Prim2B y))) < bpow radix2 128)%R ->
+  (BinarySingleNaN.B2R (Prim2B x) <= BinarySingleNaN.B2R (Prim2B y))%R ->
+  (BinarySingleNaN.B2R (Prim2B (of_bits32 (bits32 x))) <= BinarySingleNaN.B2R (Prim2B (of_bits32 (bits32 y))))%R.
+Proof.
+  intros Hx Hy Lx Ly Hle.
+  destruct (f32_nearest x Hx Lx) as [Ex _]. destruct (f32_nearest y Hy Ly) as [Ey _].
+  rewrite Ex, Ey. apply round_le; [apply FLT_exp_valid; reflexivity|apply valid_rnd_N|exact Hle].
+Qed.
